@@ -477,3 +477,38 @@ def ivec_em_step(stats, T, sigma, ubm_mu, update_sigma, floor):
     if update_sigma:
         sig2 = np.maximum(sig2, floor)
     return T2, sig2
+
+
+def kmeans_tie_candidates(X, cent, rel=1e-9, max_tied=6):
+    """All centroid sets obtainable by one Lloyd step when samples exactly equidistant from several centroids
+    may go to any ONE of them.  Returns (candidates, n_tied, ambiguous) where ambiguous is True when some sample
+    is nearly but not exactly tied (margin between rel and 1e-6) or there are too many tied samples."""
+    import itertools
+
+    X = np.atleast_2d(np.asarray(X, dtype=float))
+    D = sq_dists(X, cent)
+    k = cent.shape[0]
+    best = D.min(axis=0)
+    options, ambiguous = [], False
+    for t in range(X.shape[0]):
+        scale = max(np.sort(D[:, t])[1] if k > 1 else 1.0, 1e-300)
+        gap = (D[:, t] - best[t]) / scale
+        tied = [i for i in range(k) if gap[i] <= rel]
+        if any(rel < g < 1e-6 for g in gap):
+            ambiguous = True
+        options.append(tied)
+    tied_idx = [t for t, o in enumerate(options) if len(o) > 1]
+    if len(tied_idx) > max_tied:
+        return [], len(tied_idx), True
+    cands = []
+    for choice in itertools.product(*[options[t] for t in tied_idx]):
+        lab = np.array([o[0] for o in options])
+        for t, c in zip(tied_idx, choice):
+            lab[t] = c
+        new = np.full_like(cent, np.nan, dtype=float)
+        for i in range(k):
+            sel = X[lab == i]
+            if len(sel):
+                new[i] = sel.mean(axis=0)
+        cands.append((new, lab))
+    return cands, len(tied_idx), ambiguous
